@@ -17,7 +17,14 @@ sys.path.insert(0, os.path.dirname(os.path.abspath(__file__)))
 import vlib  # noqa: E402
 
 
+def _terminated(signum, frame):
+    # a check that is stopped from outside (timeout) still removes its scratch directory
+    raise KeyboardInterrupt('signal %d' % signum)
+
+
 def main():
+    import signal
+    signal.signal(signal.SIGTERM, _terminated)
     if len(sys.argv) >= 2 and sys.argv[1] == 'setup':
         import fam_expander
         ctx = vlib.Ctx('setup', 'quick', 0)
@@ -45,6 +52,9 @@ def main():
         return fn(ctx)
     except vlib.Broken as e:
         print('BROKEN-CHECK property=%s: %s' % (prop, e), file=sys.stderr)
+        return 2
+    except KeyboardInterrupt as e:
+        print('BROKEN-CHECK property=%s: interrupted (%s)' % (prop, e), file=sys.stderr)
         return 2
     except Exception:
         traceback.print_exc()
